@@ -19,6 +19,7 @@ fn main() {
     let rt = tokio::runtime::Builder::new_multi_thread().worker_threads(8).enable_all().build().unwrap();
     match cmd.as_str() {
         "replay-storage" => rt.block_on(storage::replay()),
+        "verify-lmdb" => rt.block_on(storage::verify_lmdb()),
         "record-storage" => rt.block_on(storage_random::record()),
         "replay-cluster" => rt.block_on(cluster::replay()),
         "record-consistency" => rt.block_on(consistency::record()),
